@@ -75,7 +75,8 @@ def check(repo: Repo, run: Run) -> None:
     # ---- R2 the family tables stay what their modules registered: nothing outside a family's module writes into its table
     # (a merge that uses one family's table as the accumulator makes that family claim every other family's names)
     interp = sym.Interp(repo)
-    fam_tables = {f"pykdebugparser.trace_handlers.{fam}.handlers" for fam in reg}
+    fam_tables = {f"pykdebugparser.trace_handlers.{fam}.handlers" for fam in reg} | \
+        {f"{m_.name}.handlers" for m_ in repo.modules.values() if ".trace_handlers." in m_.name and "handlers" in m_.constants}
     n_units = 0
     for mod in repo.modules.values():
         units = [(None, f) for f in mod.functions.values()]
@@ -91,9 +92,11 @@ def check(repo: Repo, run: Run) -> None:
             except Exception:
                 continue
             for e_ in rec.effects:
-                pth = e_.path if e_.path is not None else e_.base
-                root = sym.root_of(pth) if pth is not None else None
-                if root is not None and root.op == "global" and root.a[0] in fam_tables and e_.kind in ("mut-call", "sub-store", "del-sub") \
+                # (the object written: by the path it was reached through, or - `self.handlers = bsd_handlers` first - by what
+                # that path held)
+                roots = [sym.root_of(x_) for x_ in (e_.path, e_.base) if x_ is not None]
+                root = next((r_ for r_ in roots if r_.op == "global" and r_.a[0] in fam_tables), None)
+                if root is not None and e_.kind in ("mut-call", "sub-store", "del-sub") \
                         and not mod.name.startswith(root.a[0].rsplit(".", 1)[0]):
                     qn = f"{ci.name}.{fn.name}" if ci else fn.name
                     run.ob("R2", mod.name, qn, f"family table {root.a[0].split('.')[-2]}.handlers is not written", False,
